@@ -45,6 +45,9 @@ STAGES = {
         # three sibling roots, two truncated answers in one walk (the answer
         # to the first request and the answer to the request that completes it)
         dict(name="F", universe="U2", max_db=3, max_roots=0, triples=True, bulk=[1, 2], cut_rows=1, deviations=2),
+        # bulk sizes at the top of the max-repetitions range (the agent answers
+        # with what it has; it never sends more than 60 repetitions)
+        dict(name="G", universe="U2", max_db=2, max_roots=2, triples=True, bulk=[2**31 - 1, 2**30, 65536], cut_rows=1, deviations=1),
     ],
     "thorough": [
         dict(name="A", universe="U", max_db=3, max_roots=2, triples=True, bulk=[1, 2, 4, 7, 25], cut_rows=3, deviations=1),
@@ -53,6 +56,7 @@ STAGES = {
         dict(name="D", universe="U", max_db=4, max_roots=2, triples=False, bulk=[1, 2, 5], cut_rows=1, deviations=1),
         dict(name="E", universe="U2", max_db=3, max_roots=3, triples=False, bulk=[1, 2, 10], cut_rows=2, deviations=1),
         dict(name="F", universe="U2", max_db=4, max_roots=0, triples=True, bulk=[1, 2, 3], cut_rows=2, deviations=3),
+        dict(name="G", universe="U2", max_db=3, max_roots=2, triples=True, bulk=[2**31 - 1, 2**30, 2**31 - 2, 65536, 255, 256], cut_rows=1, deviations=1),
     ],
 }
 
